@@ -42,6 +42,10 @@ structure St (α : Type) where
   us : List (Nat × UReg α) := []
   bs : List (Nat × BReg α) := []
   ids : List (Nat × BPoly.Ideal α) := []
+  /-- field objects (by index) whose addition table / multiplication (or logarithm) table exists;
+      only the *presence* of a table is state: it decides whether a later request recomputes -/
+  addTabs : List Nat := []
+  mulTabs : List Nat := []
 
 namespace St
 variable {α : Type}
@@ -157,6 +161,7 @@ def hexVal (c : Char) : Nat :=
 
 /-- strings travel hex-encoded on the wire -/
 def unhex (s : String) : String :=
+  if s == "EMPTY" then "" else
   let rec go : List Char → List Char
     | a :: b :: t => Char.ofNat (hexVal a * 16 + hexVal b) :: go t
     | _ => []
@@ -214,11 +219,17 @@ def eInPlace (op : String) (a b : EReg α) : EReg α × EReg α × Bool :=
   | .other r => (a, r, false)
   | .go => let r := { a with val := eBinFn (fld env a.home) op a.val b.val }; (r, r, true)
 
-/-- `a.Prod(b, c)` (after "fix: foreign element type in Prod") -/
-def eProdFn (a b c : EReg α) : EReg α × EReg α × Bool :=
+/-- `a.Prod(b, c)` (after "fix: foreign element type in Prod"). `bIsA` / `cIsA` say that operand b / c
+    is the very same object as the receiver (`a.Mult(b)` is `a.Prod(a, b)`): the erroneous operand that
+    `hasErr` returns is then the receiver itself. -/
+def eProdFn (a b c : EReg α) (bIsA cIsA : Bool := false) : EReg α × EReg α × Bool :=
   if b.foreign || c.foreign then let r := { a with err := .kind .inputIncompatible }; (r, r, true)
-  else if b.err.isErr then (a, { b with err := b.err.wrapInherit }, false)
-  else if c.err.isErr then (a, { c with err := c.err.wrapInherit }, false)
+  else if b.err.isErr then
+    let r := { b with err := b.err.wrapInherit }
+    if bIsA then (r, r, true) else (a, r, false)
+  else if c.err.isErr then
+    let r := { c with err := c.err.wrapInherit }
+    if cIsA then (r, r, true) else (a, r, false)
   else if b.home ≠ c.home then
     (a, { home := b.home, val := (fld env b.home).zero, err := .kind .arithmeticIncompat }, false)
   else let r := { a with home := b.home, val := (fld env b.home).mul b.val c.val }; (r, r, true)
@@ -248,7 +259,7 @@ def stepE (s : St α) : Op → Option (St α × String)
   | .eBin dst op a b =>
     let ra := eGet env s a; let rb := eGet env s b
     -- a.Copy().Op(b); Times = Copy().Mult(b) = Prod(copy, copy, b)
-    let (_, r, _) := if op == "times" then eProdFn env ra ra rb else eInPlace env op ra rb
+    let (_, r, _) := if op == "times" then eProdFn env ra ra rb true false else eInPlace env op ra rb
     some ({ s with es := St.setL s.es dst r }, "ok " ++ showE env r)
   | .eUn dst op a =>
     let ra := eGet env s a
@@ -269,10 +280,10 @@ def stepE (s : St α) : Op → Option (St α × String)
     some ({ s with es := St.setL s.es dst r }, "ok " ++ showE env r)
   | .eIn op a b =>
     let ra := eGet env s a; let rb := eGet env s b
-    let (ra', r, isRecv) := if op == "mult" then eProdFn env ra ra rb else eInPlace env op ra rb
+    let (ra', r, isRecv) := if op == "mult" then eProdFn env ra ra rb true (a == b) else eInPlace env op ra rb
     some ({ s with es := St.setL s.es a ra' }, ret isRecv (showE env r))
   | .eProd a b c =>
-    let (ra', r, isRecv) := eProdFn env (eGet env s a) (eGet env s b) (eGet env s c)
+    let (ra', r, isRecv) := eProdFn env (eGet env s a) (eGet env s b) (eGet env s c) (a == b) (a == c)
     some ({ s with es := St.setL s.es a ra' }, ret isRecv (showE env r))
   | .eSetNeg a =>
     let ra := eGet env s a
@@ -336,6 +347,14 @@ def uTimes (a b : UReg α) : UReg α :=
 /-- is the scalar usable: error-free element of the ring's field object -/
 def goodScalar (e : EReg α) : Bool := !e.foreign && !e.err.isErr && e.home == 0
 
+/-- `SetScale(c)` / `Scale(c)` do not check their scalar (recorded finding PF-18): a usable scalar
+    scales; an unusable one (carrying an error, or of another field object) whose value is zero still
+    takes the `c.IsZero()` shortcut, otherwise every coefficient product fails and nothing changes. -/
+def scalarEffect (e : EReg α) : Option Bool :=   -- some true = scale, some false = set to zero, none = unchanged
+  if goodScalar e then some true
+  else if !e.foreign && (fld env e.home).isZero e.val then some false
+  else none
+
 def stepU (s : St α) : Op → Option (St α × String)
   | .uCtor dst ring how arg =>
     let R := uring env ring
@@ -349,6 +368,21 @@ def stepU (s : St α) : Op → Option (St α × String)
     else if how == "ints" then fin (UPoly.ofInts R (parseIntList arg))
     else if how == "zero" then fin (some (UPoly.zero R.F))
     else if how == "one" then fin (some (UPoly.one R.F))
+    else if how == "regs" then
+      -- `Polynomial([]ff.Element{…})` from element registers (the constructor copies them)
+      fin (UPoly.ofCoefs R ((if arg == "-" then [] else arg.splitOn ",").map fun t => (eGet env s ((t.drop 1).toString.toNat!)).val))
+    else if how == "ideal" then
+      -- `r.NewIdeal(gens...)`, the reply shows `Generator()`
+      let gens := (if arg == "-" then [] else arg.splitOn ",").map fun t => uGet env s ((t.drop 1).toString.toNat!)
+      if gens.isEmpty then some (s, "err InputValue")
+      else if gens.any (·.home ≠ ring) then some (s, "err InputIncompatible")
+      else match UPoly.newIdeal R.F (gens.map (·.val)) with
+        | none => some (s, "fuel-exhausted")
+        | some g =>
+          if UPoly.isZero R.F g then some (s, "err InputValue")
+          else
+            let r : UReg α := { home := ring, val := g }
+            some ({ s with us := St.setL s.us dst r }, "ok " ++ showU env r)
     else if how == "str" then
       match UPoly.parse R (unhex arg) with
       | .ok o => fin o
@@ -372,7 +406,10 @@ def stepU (s : St α) : Op → Option (St α × String)
     some ({ s with us := St.setL s.us dst r }, "ok " ++ showU env r)
   | .uScale dst a e =>
     let ra := uGet env s a; let re := eGet env s e
-    let r := if goodScalar re then { ra with val := UPoly.scale (F0 env) ra.val re.val } else ra
+    let r := match scalarEffect env re with
+      | some true => { ra with val := UPoly.scale (F0 env) ra.val re.val }
+      | some false => { ra with val := UPoly.zero (F0 env) }
+      | none => ra
     some ({ s with us := St.setL s.us dst r }, "ok " ++ showU env r)
   | .uPow dst a n =>
     let ra := uGet env s a
@@ -412,7 +449,10 @@ def stepU (s : St α) : Op → Option (St α × String)
     some ({ s with us := St.setL s.us a r }, ret true (showU env r))
   | .uSetScale a e =>
     let ra := uGet env s a; let re := eGet env s e
-    let r := if goodScalar re then { ra with val := UPoly.scale (F0 env) ra.val re.val } else ra
+    let r := match scalarEffect env re with
+      | some true => { ra with val := UPoly.scale (F0 env) ra.val re.val }
+      | some false => { ra with val := UPoly.zero (F0 env) }
+      | none => ra
     some ({ s with us := St.setL s.us a r }, ret true (showU env r))
   | .uSetCoef op a d e =>
     let ra := uGet env s a; let re := eGet env s e
@@ -544,6 +584,12 @@ def stepB (s : St α) : Op → Option (St α × String)
     else if how == "nats" then fin (BPoly.ofMap R (triples fun c => R.F.ofNat c.toNat!))
     else if how == "ints" then fin (BPoly.ofMap R (triples fun c => R.F.ofInt (parseInt c)))
     else if how == "zero" then fin (some [])
+    else if how == "regs" then
+      -- `Polynomial(map[[2]uint]ff.Element{…})` from element registers (the constructor copies them)
+      fin (BPoly.ofMap R ((if arg == "-" then [] else arg.splitOn "/").filterMap fun t =>
+        match t.splitOn ":" with
+        | [x, y, e] => some ((x.toNat!, y.toNat!), (eGet env s ((e.drop 1).toString.toNat!)).val)
+        | _ => none))
     else if how == "str" then
       match BPoly.parse R (unhex arg) with
       | .ok o => fin o
@@ -561,7 +607,7 @@ def stepB (s : St α) : Op → Option (St α × String)
     let o := bord env ra.home
     let r : BReg α :=
       if op == "copy" then ra
-      else if op == "neg" then { home := ra.home, val := BPoly.neg F ra.val }
+      else if op == "neg" then { ra with val := BPoly.neg F ra.val }
       else if op == "normalize" then { ra with val := BPoly.normalize F o ra.val }
       else { home := ra.home, val := BPoly.lt F o ra.val }
     some ({ s with bs := St.setL s.bs dst r }, "ok " ++ showB env r)
@@ -569,9 +615,10 @@ def stepB (s : St α) : Op → Option (St α × String)
     let ra := bGet s a; let re := eGet env s e
     let F := F0 env
     let r : BReg α :=
-      if !goodScalar re then ra
-      else if F.isZero re.val then { home := ra.home, val := [] }
-      else { ra with val := BPoly.scale F ra.val re.val }
+      match scalarEffect env re with
+      | none => ra
+      | some false => { ra with val := [] }
+      | some true => if F.isZero re.val then { ra with val := [] } else { ra with val := BPoly.scale F ra.val re.val }
     some ({ s with bs := St.setL s.bs dst r }, "ok " ++ showB env r)
   | .bPow dst a n =>
     let ra := bGet s a
@@ -603,7 +650,10 @@ def stepB (s : St α) : Op → Option (St α × String)
       some ({ s with bs := St.setL s.bs a ra' }, ret isRecv (showB env r))
   | .bSetScale a e =>
     let ra := bGet s a; let re := eGet env s e
-    let r := if goodScalar re then { ra with val := BPoly.scale (F0 env) ra.val re.val } else ra
+    let r := match scalarEffect env re with
+      | some true => { ra with val := BPoly.scale (F0 env) ra.val re.val }
+      | some false => { ra with val := [] }
+      | none => ra
     some ({ s with bs := St.setL s.bs a r }, ret true (showB env r))
   | .bSetCoef op a d e =>
     let ra := bGet s a; let re := eGet env s e
@@ -686,6 +736,12 @@ def stepB (s : St α) : Op → Option (St α × String)
   | .iXform which a =>
     let id := iGet s a
     let F := F0 env; let o := bord env 0
+    if which == "quotient" then
+      -- `ring0.Quotient(id)`: the ideal object given by the caller is left as it is
+      match BPoly.quotientGens F o id with
+      | none => some (s, "fuel-exhausted")
+      | some _ => some (s, "ok")
+    else
     let res := if which == "minimize" then id.minimizeBasis F o else id.reduceBasis F o
     match res with
     | none => some (s, "fuel-exhausted")
@@ -700,18 +756,29 @@ def stepB (s : St α) : Op → Option (St α × String)
     some (s, "obs " ++ showFlags id ++ " gens=" ++ showGens env (bord env 0) id.gens)
   | _ => none
 
-/-- `ComputeTables` / `ComputeMultTable`: only the error result is observable -/
+/-- `ComputeTables(add, mult, maxMem...)` / `ComputeMultTable(maxMem...)`: a table that already exists
+    is not recomputed (no error whatever the limit); otherwise the estimate is compared with the limit.
+    Only table *presence* is recorded; table contents never influence any other operation of the model
+    (that they do not in the code either is theorem `lookup_newTable` + the twin correspondence runs). -/
 def stepT (desc : FieldDesc) (s : St α) : Op → Option (St α × String)
-  | .tables _ add mult maxMem =>
+  | .tables f add mult maxMem =>
     match desc with
     | .prime p =>
-      (match Prime.computeTables p add mult (maxMem.getD Gen.primeDefaultMaxMem) with
-        | .ok () => some (s, "ok")
-        | .error k => some (s, "err " ++ toString k))
+      let needAdd := add && !s.addTabs.contains f
+      let needMul := mult && !s.mulTabs.contains f
+      let tooBig := Prime.estimateMemory p > maxMem.getD Gen.primeDefaultMaxMem
+      -- the error of the addition table is overwritten by the result for the multiplication table
+      let s1 := if needAdd && !tooBig then { s with addTabs := f :: s.addTabs } else s
+      let s2 := if needMul && !tooBig then { s1 with mulTabs := f :: s1.mulTabs } else s1
+      let err := if needMul then tooBig else (needAdd && tooBig)
+      some (s2, if err then "err InputTooLarge" else "ok")
     | .ext p n _ =>
-      let elemSize := w64 (n * uintSize) / 8
-      let est := w64 (wsub (Ext.card p n) 1 * w64 (1 + elemSize)) >>> 10
-      if est > maxMem.getD Gen.extDefaultMaxMem then some (s, "err InputTooLarge") else some (s, "ok")
+      if s.mulTabs.contains f then some (s, "ok")
+      else
+        let elemSize := w64 (n * uintSize) / 8
+        let est := w64 (wsub (Ext.card p n) 1 * w64 (1 + elemSize)) >>> 10
+        if est > maxMem.getD Gen.extDefaultMaxMem then some (s, "err InputTooLarge")
+        else some ({ s with mulTabs := f :: s.mulTabs }, "ok")
     | .bin _ _ => some (s, "ok")
   | _ => none
 
